@@ -760,9 +760,10 @@ def check(pid, tier, seed):
     with cf.ThreadPoolExecutor(max_workers=NCPU) as ex:
         results = list(ex.map(run_worker, jobs))
     fuzz_stats = None
+    fuzz_failures = []
     if tcfg.get("fuzz"):
         fuzz_stats = run_fuzz(tcfg["fuzz"], pid, tier, seed, scratch,
-                              failures)
+                              fuzz_failures)
     program_result = None
     if cfg.get("program"):
         mod = program_module(cfg["program"])
@@ -777,7 +778,7 @@ def check(pid, tier, seed):
                                    **kw)
 
     total = dict(evaluations=0, nontrivial=0, inconclusive=0)
-    classes, excluded, samples, failures = {}, {}, [], []
+    classes, excluded, samples, failures = {}, {}, [], list(fuzz_failures)
     all_hashes = set()
     extra_distinct = 0
     crashed = []
